@@ -8,6 +8,7 @@ import AnySyncModel.Acl.ListLemmas
 import AnySyncModel.Acl.Chain
 import AnySyncModel.Acl.Requests
 import AnySyncModel.Acl.KeepLemmas
+import AnySyncModel.Acl.KeepEq
 import AnySyncModel.Generated.AclFacts
 
 namespace AnySync.Acl
@@ -298,6 +299,13 @@ def C03_keep_fast_eq_full : Prop :=
   ∀ (other : Int → Keep.Bytes → Bool) (isOurs : Keep.Bytes → Bool) (d : Keep.Bytes) (out : List Keep.Cnt),
     (∀ x ∈ d, x < 256) → d.length < 2 ^ 63 →
     Keep.fast isOurs d = .ok out → Keep.fullDecodeFilter other isOurs d = some out
+
+/-- **keepIdentityFast = fullDecodeFilter wherever the fast path does not bail out** — proved over the
+protobuf wire grammar: protowire and the generated varint loops read the same tags and lengths on
+every input protowire accepts, and each strict loop of the fast path is simulated by the generated
+message loop of the same level (element, read key change, account remove, content value, data). -/
+theorem keep_fast_eq_full : C03_keep_fast_eq_full :=
+  fun other isOurs d out hd hlen h => Keep.fast_eq_full other isOurs d out hd hlen h
 
 /-! ## non-vacuity -/
 
